@@ -136,6 +136,14 @@ func stackMarshalT(depth int, churn bool) ([]byte, error) {
 }
 
 //go:noinline
+func stackMarshalNoEscapeT(depth int, churn bool) ([]byte, error) {
+	var d stackDocT
+	d.H, d.I, d.S, d.L = 5, 1, "one", []int{1}
+	d.A = stackCBT{nextI: &d.I, nextS: &d.S, nextL: &d.L, depth: depth, churn: churn}
+	return gojson.MarshalNoEscape(&d)
+}
+
+//go:noinline
 func stackMarshalOptJ(depth int, churn bool) ([]byte, error) {
 	var d stackDocJ
 	d.I, d.S, d.L = 1, "one", []int{1}
@@ -210,6 +218,7 @@ func stackSliceOfDocs(depth int, churn bool) ([]byte, error) {
 var stackEntries = []stackEntry{
 	{"Marshal(&local)/MarshalJSON", stackWantJ, stackMarshalJ},
 	{"Marshal(&local)/MarshalText", stackWantT, stackMarshalT},
+	{"MarshalNoEscape(&local)", stackWantT, stackMarshalNoEscapeT},
 	{"MarshalWithOption(&local)", stackWantJ, stackMarshalOptJ},
 	{"MarshalContext(&local)", stackWantT, stackMarshalCtxT},
 	{"MarshalIndent(&local)", stackWantJ, stackMarshalIndentJ},
@@ -222,7 +231,12 @@ var stackEntries = []stackEntry{
 // recursion is what moves it), for several recursion depths and pre-grown sizes.
 func c08StackResident(c *rt.Ctx, subBase int) {
 	for ei, e := range stackEntries {
-		if !c.Cur(subBase+ei, "shapes=core\nstack-resident value: "+e.name) {
+		shapes := "core"
+		if strings.HasPrefix(e.name, "MarshalNoEscape") {
+			// the one entry point that leaves its argument on the caller's stack by design
+			shapes = "noescape-stack-resident"
+		}
+		if !c.Cur(subBase+ei, "shapes="+shapes+"\nstack-resident value: "+e.name) {
 			continue
 		}
 		for _, pre := range []int{0, 100, 700} {
